@@ -33,7 +33,7 @@ func c02(env *core.Env, large bool) {
 		BadPush:      true,
 		ContentFault: true,
 		EmptyBlobMT:  true,
-		Motifs:     true,
+		Motifs:       true,
 		AltAlgo:      true,
 		Stops:        true,
 		Uploads:      true,
